@@ -162,6 +162,11 @@ def run(ck, rng, tier):
     for i, (mt, o) in enumerate(zip(meta, outs)):
         if o is None:
             continue
+        nf_ = None if o.get("nonterminating") else vf.first_nonfinite(o)
+        if nf_:
+            # finite in-domain data: every stored result is a finite number (tolerance comparisons below are blind to NaN)
+            ck.fail("PCA", "not_finite", "the output `%s` holds NaN/Inf" % nf_, {"case": str(mt)[:3000]})
+            continue
         kind, X, scaling, npc, mag = mt[0], mt[1], mt[2], mt[3], mt[4]
         n, m = X.shape
         if o.get("nonterminating"):
